@@ -285,6 +285,12 @@ class Agg:
             if r["status"] == "fail":
                 f = next((f for f in findings if finding_matches(f, r)), None)
                 if f is not None:
+                    if f["id"] not in self.known_hits:
+                        # keep one concrete case per finding and run (a candidate witness)
+                        write_replay(self.prop, "known-%s-seed%s-%s" % (f["id"], self.seed, r.get("i", "x")),
+                                     {"property": self.prop, "mode": mode, "seed": self.seed, "tier": self.tier, "index": r.get("i"),
+                                      "kind": r.get("kind"), "detail": r.get("detail"), "classes": r.get("classes"), "config": r.get("config"),
+                                      "case": r.get("case"), "extra_args": r.get("extra_args", [])})
                     self.known_hits[f["id"]] = self.known_hits.get(f["id"], 0) + 1
                     pm["failures_known"] += 1
                 else:
